@@ -70,6 +70,15 @@ def ts(sec):
     return pd.Timestamp(int(sec), unit='s', tz='UTC')
 
 
+ZONES = ['America/New_York', 'Asia/Tokyo', 'Europe/London', 'Australia/Sydney', 'America/Los_Angeles', 'Asia/Kolkata']
+
+
+def ts_in(sec, zone=None):
+    """the same instant expressed in another time zone (equal instants compare and hash equal)"""
+    t = ts(sec)
+    return t.tz_convert(zone) if zone else t
+
+
 def secs(t):
     """pandas Timestamp (UTC) -> integer seconds."""
     return int(t.value // 10 ** 9)
